@@ -38,7 +38,7 @@ def plan(tier):
 
 def floors(tier):
     return {"nontrivial": 30, "held:additive": 30, "counter:jtj_checks": 80, "counter:hessian_checks": 80, "counter:hessian_exact": 30,
-            "counter:psd_checks": 80, "counter:fd_crosschecks": 60, "class:weights": 15, "class:x0-ndarray-shared": 20, "counter:sibling_calls": 40, "counter:prior_calls": 100, "counter:prior_call_fisher_information": 10, "class:weights-zero-mask": 5, "class:target_param": 10, "class:obs-permuted": 10}
+            "counter:psd_checks": 80, "counter:fd_crosschecks": 60, "class:weights": 15, "class:x0-ndarray-shared": 20, "counter:sibling_calls": 40, "counter:prior_calls": 100, "counter:jtj_full_output_calls": 30, "counter:prior_call_fisher_information": 10, "class:weights-zero-mask": 5, "class:target_param": 10, "class:obs-permuted": 10}
 
 
 def run_case(rng, idx, tier, lane, ctx):
@@ -106,7 +106,13 @@ def run_case(rng, idx, tier, lane, ctx):
             counters["sibling_calls"] = LC.disturb_with_sibling(rng, c)
         sample["calls_made_before_jtj"] = LC.prior_calls(rng, c, obj, counters)
         with contextlib.redirect_stdout(io.StringIO()), np.errstate(all="ignore"):
-            JTJ = np.asarray(obj.jtj(free), dtype=float)
+            if rng.random() < 0.5:
+                JTJ = np.asarray(obj.jtj(free), dtype=float)
+            else:
+                out_full = obj.jtj(free, full_output=True)       # (JTJ, info dict): the form the confidence-interval routines use
+                JTJ = np.asarray(out_full[0], dtype=float)
+                counters["jtj_full_output_calls"] = counters.get("jtj_full_output_calls", 0) + 1
+                cls.append("jtj-full-output")
         counters["jtj_checks"] += 1
         sc = float(np.max(np.abs(JTJ_ref))) + 1e-6 * float(np.max(W)) ** 2
         if JTJ.shape != JTJ_ref.shape or not np.all(np.abs(JTJ - JTJ_ref) <= 1e-5 * sc):
